@@ -107,15 +107,18 @@ def bit (s : String) : Option Bool := if s = "1" then some true else if s = "0" 
 open Sqfs.FailStop.BP in
 def primName : BP.Prim → String
   | .inodeAlloc => "inodeAlloc" | .allocBlock => "allocBlock" | .allocFragCopy => "allocFragCopy"
-  | .submit => "submit" | .poolDequeue => "poolDequeue" | .writeBlock => "writeBlock"
+  | .submit => "submit" | .poolDequeue => "poolDequeue" | .storeLocation => "storeLocation" | .writeAt => "writeAt"
+  | .dedupRead => "dedupRead" | .dedupTruncate => "dedupTruncate"
   | .growSparseBlock => "growSparseBlock" | .growDataBlock => "growDataBlock" | .growSparseTail => "growSparseTail"
   | .fragTableSet => "fragTableSet" | .fragLookup => "fragLookup" | .fragTableAppend => "fragTableAppend"
   | .allocChunk => "allocChunk" | .htInsert => "htInsert"
 
-/-- `B<i><d>`, `A<n>:<z><d>` (z: all zero, d: duplicate of an earlier fragment), `E`, `S`, `F` -/
+/-- `B<i><d><n><b>` (with inode, dont_fragment, dont_deduplicate, data blocks duplicate earlier ones),
+    `A<n>:<z><d>` (z: all zero, d: duplicate of an earlier fragment), `E`, `S`, `F` -/
 def parseApi (tok : String) : Option BP.Api :=
   match tok.toList with
-  | ['B', i, d] => some (.beginFile (i == '1') (d == '1'))
+  | ['B', i, d] => some (.beginFile (i == '1') (d == '1') false false)
+  | ['B', i, d, n, b] => some (.beginFile (i == '1') (d == '1') (n == '1') (b == '1'))
   | ['E'] => some .endFile
   | ['S'] => some .sync
   | ['F'] => some .finish
@@ -148,7 +151,7 @@ def bpFaultAt (v : Variant) (calls : List BP.Api) (j : Nat) (kinds : List String
           else
             match BP.runCall v BPFUEL a p (List.replicate idx false ++ [true]) with
             | (r, _, _) =>
-              s!"{" ".intercalate (acc ++ [if r.ok then "ok" else "err"])} faulted={if r.faulted then 1 else 0} damaged={if r.damaged then 1 else 0} err={match r.err with | some .fault => "fault" | some .fuel => "fuel" | some .sequence => "sequence" | some .internal => "internal" | none => "-"} prims={joinOr names}"
+              s!"{" ".intercalate (acc ++ [if r.ok then "ok" else "err"])} faulted={if r.faulted then 1 else 0} damaged={if r.damaged then 1 else 0} err={match r.err with | some .fault => "fault" | some .fuel => "fuel" | some .nullDeref => "nullDeref" | some .sequence => "sequence" | some .internal => "internal" | none => "-"} prims={joinOr names}"
   go 0 calls {} []
 
 def bpFaultFree (v : Variant) (calls : List BP.Api) : String :=
